@@ -21,6 +21,10 @@ RULE = ("Wallets 1<=m<=n<=6 (quick: n<=4) over keys derived from random seeds at
         "foreign characters; every single-character substitution (94 replacement characters) at every position "
         "of sampled descriptors, body and checksum; malformed records (bad fingerprint/path/xpub/network mix/"
         "threshold/checksum).")
+RULE += (" Reuse: descriptor objects kept alive and asked get_address for (offset, branch, sort_keys) in different orders "
+         "and twice in a row, alternately on two wallets, with in-place edits of quorum_m / key_records / network in "
+         "between; checksum and parse called in sequences on related texts; one HDPublicKey asked for several children; "
+         "constructor/get_address leave their arguments untouched.")
 TRUSTED = ["hashlib / hmac (sha256, hmac-sha512, ripemd160 are not part of the repository)",
            "is_valid_bip32_path, HDPublicKey.parse/child/sec/xpub, Base58 and Bech32 belong to C08/C09; here their "
            "results enter the model as tables computed by the implementation and the predicates compare against an "
@@ -941,11 +945,11 @@ def generate(ctx):
 
     # ---- one object used repeatedly: stale memoised state on descriptor / key objects, coarse module-level caches
     small = [w for w in wallets if w[1] <= 3 and all(i + 1 < 2 ** 31 for _, _, _, i in w[3])]
-    for num in range(ctx.n(3, 30)):
+    for num in range(ctx.n(3, 12)):
         ws = r.sample(small, 2)
         spares = [k.plain for net in NETS for k in pool[net]]
         ctx.label("reuse/descriptor")
-        yield ("prop", "reuse_desc", [[[m, recs] for m, n, net, recs in ws], spares, r.getrandbits(30), ctx.n(22, 50)])
+        yield ("prop", "reuse_desc", [[[m, recs] for m, n, net, recs in ws], spares, r.getrandbits(30), ctx.n(22, 40)])
     for m, n, net, recs in small[: ctx.n(3, 20)]:
         ctx.label("reuse/ctor-pure")
         yield ("prop", "ctor_pure", [m, recs, r.choice(EDGE + [r.randrange(2 ** 31)])])
@@ -971,9 +975,10 @@ def generate(ctx):
     for _ in range(ctx.n(1, 10)):
         ts = r.sample(shortest, 2)
         ctx.label("reuse/parse-order")
-        yield ("prop", "parse_order", [ts, [[r.randrange(2), r.randrange(3)] for _ in range(ctx.n(8, 16))]])
+        order = [[0, 0], [1, 0], [0, 2], [1, 2], [0, 1], [1, 1], [0, 2]]
+        yield ("prop", "parse_order", [ts, order + [[r.randrange(2), r.randrange(3)] for _ in range(ctx.n(3, 12))]])
     for net in NETS:
         k = r.choice(pool[net])
-        idxs = [[r.choice([0, 1, 2, 2 ** 31 - 1]), r.choice([0, 1, 5, 2 ** 31 - 1])] for _ in range(ctx.n(6, 20))]
+        idxs = [[r.choice([0, 1, 2, 256, 2 ** 16, 2 ** 31 - 1]), r.choice([0, 1, 5, 257, 2 ** 31 - 1])] for _ in range(ctx.n(6, 20))]
         ctx.label("reuse/hdpublickey")
         yield ("prop", "reuse_hdpub", [k.plain, idxs])
